@@ -218,12 +218,13 @@ def readAmt (dc : Bool) (migrate : Bool) (w : WAmt) : Except LoadErr (Amount × 
          { prec := s.prec, suffixed := w.suffixed, separated := w.separated,
            thousands := s.thousands, decimalComma := s.dc })
 
+/-- An amount without a commodity has no commodity to teach (`commodity_ &&` in amount.cc 1189). -/
 def readOpt (pool : Pool) (migrate : Bool) : Option WAmt → Except LoadErr (Option Amount × Pool)
   | none => .ok (none, pool)
   | some w =>
     match readAmt (pool.get w.comm).decimalComma migrate w with
     | .error e => .error e
-    | .ok (a, sty) => .ok (some a, if migrate then pool.learn w.comm sty else pool)
+    | .ok (a, sty) => .ok (some a, if migrate && decide (w.comm ≠ "") then pool.learn w.comm sty else pool)
 
 def mkPosting (p : WPost) (amt cst asr : Option Amount) : Posting :=
   { account := p.account, kind := p.kind, state := 0, amount := amt,
